@@ -346,8 +346,10 @@ fn run_scenario_inner(w: &World, sc: &Scenario) -> Result<String, (String, Strin
 	// target's, then a pending send from acct1 takes exactly that id
 	if sc.others >= 1 && tname == "A" && sc.kind != Kind::SelfSendReceivedSide {
 		let parent = t.with(|b| b.parent_key_id());
-		if let Some(target) = t.txs().into_iter().find(|e| e.tx_slate_id == Some(slate_id) && e.tx_type == ttype && e.parent_key_id == parent) {
-			t.set_account("acct1").unwrap();
+		// (a wallet restored from its seed has no account of that label: nothing to align there)
+		let target = t.txs().into_iter().find(|e| e.tx_slate_id == Some(slate_id) && e.tx_type == ttype && e.parent_key_id == parent);
+		let has_acct1 = target.is_some() && t.set_account("acct1").is_ok();
+		if let (true, Some(target)) = (has_acct1, target) {
 			let p1 = t.with(|b| b.parent_key_id());
 			loop {
 				let next = t.txs().iter().filter(|e| e.parent_key_id == p1).map(|e| e.id + 1).max().unwrap_or(0);
